@@ -47,3 +47,78 @@ var ghostBigOf func(b []byte) int
 //@   modifies nothing
 //@   ensures result != nil && result.HashKeyRange != nil && result.ShardId == s.ShardID && same(result.ParentShardIds, s.ParentIDs)
 //@   ensures ghostBigOf(result.HashKeyRange.Start) == s.HashKeyRange.Start.val && ghostBigOf(result.HashKeyRange.End) == s.HashKeyRange.End.val
+
+// ---- split tracker (C16). known = the shards being tracked (by id), assigned = ids handed to a
+// reader. A shard is available when it is known, not assigned and none of its parents is known
+// any more (finished shards are removed): children wait for their parents.
+//@ type SplitTracker
+//@   guards mu: assignedSplits, knownSplits, ds.SortedMap.*
+//@   lockinv mu: stInv(self)
+//@ define knownOK(sm) := sm != nil &&
+//@        forall(func(kk_ string) bool { return has(sm.m, kk_) == exists(0, len(sm.list), func(jj_ int) bool { return sm.list[jj_] == kk_ }) }) &&
+//@        forall(0, len(sm.list), func(ii_ int) bool { return forall(0, ii_, func(jj_ int) bool { return sm.list[jj_] != sm.list[ii_] }) }) &&
+//@        (sm.isSorted ==> forall(0, len(sm.list), func(ii_ int) bool { return forall(0, ii_, func(jj_ int) bool { return sm.list[jj_] <= sm.list[ii_] }) }))
+//@ define stInv(st) := knownOK(st.knownSplits) &&
+//@        forall(func(kk_ string) bool { return has(st.knownSplits.m, kk_) ==> st.knownSplits.m[kk_].ShardID == kk_ })
+//@ define isKnown(st, id) := has(st.knownSplits.m, id)
+//@ define idIn(shards, n, id) := exists(0, n, n-1, func(jj_ int) bool { return shards[jj_].ShardID == id })
+
+//@ func NewSplitTracker
+//@   property C16
+//@   ensures fresh(result) && result.LastAssignedSplitID == ""
+//@   ensures forall(func(k string) bool { return !isKnown(result, k) && !has(result.assignedSplits, k) })
+//@   ensures stInv(result)
+
+//@ func SplitTracker.AddSplits
+//@   property C16
+//@   modifies ds.SortedMap.list, ds.SortedMap.m, ds.SortedMap.isSorted
+//@   ensures forall(func(k string) bool { return isKnown(st, k) == (old(isKnown(st, k)) || idIn(shards, len(shards), k)) })
+//@   loop 0:
+//@     invariant stInv(st) && forall(func(k string) bool { return isKnown(st, k) == (old(isKnown(st, k)) || idIn(shards, idx_, k)) })
+
+//@ func SplitTracker.LoadSplits
+//@   property C16
+//@   modifies st.LastAssignedSplitID, ds.SortedMap.list, ds.SortedMap.m, ds.SortedMap.isSorted
+//@   ensures st.LastAssignedSplitID == lastAssignedSplitID
+//@   ensures forall(func(k string) bool { return isKnown(st, k) == (old(isKnown(st, k)) || idIn(shards, len(shards), k)) })
+//@   loop 0:
+//@     invariant stInv(st) && forall(func(k string) bool { return isKnown(st, k) == (old(isKnown(st, k)) || idIn(shards, idx_, k)) })
+
+// TrackAssigned: the ids become assigned; LastAssignedSplitID - where the next shard discovery
+// starts listing - never moves backwards (a discovery starting below an id that was already
+// finished and removed would find that shard again and hand it out a second time).
+//@ func SplitTracker.TrackAssigned
+//@   property C16
+//@   modifies st.assignedSplits, st.LastAssignedSplitID
+//@   ensures forall(func(k string) bool { return has(st.assignedSplits, k) == (old(has(st.assignedSplits, k)) || idIn(shards, len(shards), k)) })
+//@   ensures st.LastAssignedSplitID >= old(st.LastAssignedSplitID)
+//@   ensures len(shards) > 0 ==> st.LastAssignedSplitID >= shards[len(shards)-1].ShardID
+//@   loop 0:
+//@     invariant forall(func(k string) bool { return has(st.assignedSplits, k) == (old(has(st.assignedSplits, k)) || idIn(shards, idx_, k)) })
+
+//@ func SplitTracker.RemoveSplits
+//@   property C16
+//@   modifies st.assignedSplits, ds.SortedMap.list, ds.SortedMap.m
+//@   ensures forall(func(k string) bool { return isKnown(st, k) == (old(isKnown(st, k)) && !exists(0, len(splitIDs), func(j int) bool { return splitIDs[j] == k })) })
+//@   ensures forall(func(k string) bool { return has(st.assignedSplits, k) == (old(has(st.assignedSplits, k)) && !exists(0, len(splitIDs), func(j int) bool { return splitIDs[j] == k })) })
+//@   loop 0:
+//@     invariant stInv(st)
+//@     invariant forall(func(k string) bool { return isKnown(st, k) == (old(isKnown(st, k)) && !exists(0, idx_, func(j int) bool { return splitIDs[j] == k })) })
+//@     invariant forall(func(k string) bool { return has(st.assignedSplits, k) == (old(has(st.assignedSplits, k)) && !exists(0, idx_, func(j int) bool { return splitIDs[j] == k })) })
+
+//@ define parentKnown(st, sh) := exists(0, len(sh.ParentIDs), func(qq_ int) bool { return isKnown(st, sh.ParentIDs[qq_]) })
+//@ define availShard(st, sh) := isKnown(st, sh.ShardID) && !has(st.assignedSplits, sh.ShardID) && !parentKnown(st, sh)
+//@ func SplitTracker.AvailableSplits
+//@   property C16
+//@   modifies ds.SortedMap.list
+//@   ensures@A forall(0, len(result), func(p int) bool { return availShard(st, result[p]) && same(result[p], st.knownSplits.m[result[p].ShardID]) })
+//@   ensures@A forall(0, len(result), func(p int) bool { return forall(0, p, func(q int) bool { return result[q].ShardID < result[p].ShardID }) })
+//@   ensures@B forall(func(k string) bool { return isKnown(st, k) && availShard(st, st.knownSplits.m[k]) ==> exists(0, len(result), func(p int) bool { return result[p].ShardID == k }) })
+//@   loop 0:
+//@     invariant stInv(st) && forall(0, seqlen(coll_), func(j int) bool { return isKnown(st, seqat(coll_, j)) && same(seqat2(coll_, j), st.knownSplits.m[seqat(coll_, j)]) })
+//@     invariant forall(0, seqlen(coll_), func(i int) bool { return forall(0, i, func(j int) bool { return seqat(coll_, j) < seqat(coll_, i) }) })
+//@     invariant@A forall(0, len(available), func(p int) bool { return availShard(st, available[p]) && same(available[p], st.knownSplits.m[available[p].ShardID]) &&
+//@                 exists(0, idx_, idx_-1, func(j int) bool { return seqat(coll_, j) == available[p].ShardID }) })
+//@     invariant@A forall(0, len(available), func(p int) bool { return forall(0, p, func(q int) bool { return available[q].ShardID < available[p].ShardID }) })
+//@     invariant@B forall(0, idx_, func(j int) bool { return availShard(st, seqat2(coll_, j)) ==> exists(0, len(available), len(available)-1, func(p int) bool { return available[p].ShardID == seqat(coll_, j) }) })
+//@     invariant@B forall(func(k string) bool { return isKnown(st, k) ==> exists(0, seqlen(coll_), func(j int) bool { return seqat(coll_, j) == k }) })
